@@ -83,6 +83,8 @@ type tmplStatus struct {
 	ok      statusVec
 	fails   []statusVec
 	problem string
+	// subject: see pathConsistent
+	subject string
 	// allStores: every store to a status field in the root analysis and the helpers spliced into it (also those in
 	// loops, which no enumerated path passes)
 	allStores []*ssa.Store
@@ -488,17 +490,80 @@ func (ts *tmplStatus) speaksOfStatus(av atomVal) bool {
 	return a.kind == symBoolean
 }
 
+// subject: when set, only the conditions that read the record of this template count (the provenance expression of
+// the *Template value, as the path explorer prints it); conditions about other templates say nothing about it.
 func (ts *tmplStatus) pathConsistent(pe *pathExplorer, pth *cfgPath, st statusVec) bool {
 	for name, val := range pth.Atoms {
 		av, ok := pe.AtomVals[name]
 		if !ok {
 			continue
 		}
+		if ts.subject != "" {
+			if b, ok := ts.baseOf(pe, av); ok && b != ts.subject {
+				continue
+			}
+		}
 		if !ts.atomConsistent(av, val, st) {
 			return false
 		}
 	}
 	return true
+}
+
+// withSubject returns a view of ts that only listens to conditions about the given template value.
+func (ts *tmplStatus) withSubject(pe *pathExplorer, v ssa.Value) *tmplStatus {
+	c := *ts
+	c.subject = pe.pv.Of(v).String()
+	return &c
+}
+
+// baseOf: the template whose record the condition reads (the first status-field load found), in the caller's terms.
+func (ts *tmplStatus) baseOf(pe *pathExplorer, av atomVal) (string, bool) {
+	var find func(v ssa.Value, depth int) ssa.Value
+	find = func(v ssa.Value, depth int) ssa.Value {
+		if depth > 8 || v == nil {
+			return nil
+		}
+		if w, ok := av.bind[v]; ok && w != v {
+			return find(w, depth+1)
+		}
+		switch x := v.(type) {
+		case *ssa.UnOp:
+			if x.Op == token.MUL {
+				if _, ok := ts.statusFieldAddr(x.X); ok {
+					return x.X.(*ssa.FieldAddr).X
+				}
+				return nil
+			}
+			return find(x.X, depth+1)
+		case *ssa.BinOp:
+			if b := find(x.X, depth+1); b != nil {
+				return b
+			}
+			return find(x.Y, depth+1)
+		case *ssa.Call:
+			for _, a := range x.Common().Args {
+				if isTemplatePtr(a.Type()) {
+					return a
+				}
+			}
+		case *ssa.ChangeInterface:
+			return find(x.X, depth+1)
+		}
+		return nil
+	}
+	b := find(av.v, 0)
+	if b == nil {
+		return "", false
+	}
+	for i := 0; i < 6; i++ {
+		w, ok := av.bind[b]
+		if !ok || w == b {
+			break
+		}
+		b = w
+	}
+	return pe.pv.Of(b).String(), true
 }
 
 // pathImplies: the conditions assumed on the path are possible for the wanted state and for no other.
